@@ -297,7 +297,7 @@ var (
 )
 
 type step struct {
-	Op    string        `json:"op"` // adv | edge (move to a window end of that quota +- D) | req | burst
+	Op    string        `json:"op"` // adv | edge (move to a window end of that quota +- D) | req | burst | metrics (the gateway's metrics collection reads the quota gauges)
 	D     time.Duration `json:"d,omitempty"`
 	Level int           `json:"level,omitempty"`
 	Group string        `json:"group,omitempty"`
@@ -309,7 +309,9 @@ func genSteps(c config) *rapid.Generator[[]step] {
 		n := rapid.IntRange(3, 40).Draw(t, "len")
 		out := []step{}
 		for k := 0; k < n; k++ {
-			switch rapid.IntRange(0, 9).Draw(t, "op") {
+			switch rapid.IntRange(0, 10).Draw(t, "op") {
+			case 10:
+				out = append(out, step{Op: "metrics"})
 			case 0, 1, 2:
 				lvl := rapid.IntRange(0, len(c.Nodes)-1).Draw(t, "wlevel")
 				_, w, _ := c.eff(lvl)
@@ -374,6 +376,8 @@ func txn(id string, level int, group string, now time.Time) engine.Txn {
 func runHistory(h hist) (nontrivial bool, classes []string, err error) {
 	clk := vclock.New(time.Unix(1_700_000_000, h.StartNs))
 	engine.SetClock(clk)
+	metrics := engine.NewMetrics()
+	defer metrics.Close()
 	dir, e := engine.NewDir(scratch)
 	if e != nil {
 		return false, nil, fmt.Errorf("VERIF-INFRA: %v", e)
@@ -398,6 +402,10 @@ func runHistory(h hist) (nontrivial bool, classes []string, err error) {
 	id := 0
 	for si, st := range h.Steps {
 		switch st.Op {
+		case "metrics":
+			if e := metrics.Read(); e != nil {
+				return false, nil, fmt.Errorf("VERIF-INFRA: metrics collection failed: %v", e)
+			}
 		case "adv":
 			clk.Advance(st.D)
 		case "edge":
